@@ -125,6 +125,15 @@ pub fn create_send_all(
     utxos: &TransactionUnspentOutputs,
     config: &TransactionBuilderConfig,
 ) -> Result<TransactionBatchList, JsError> {
+    // a UTxO the list names more than once is one UTxO: it is spent (and its value counted) once
+    let mut seen = std::collections::HashSet::new();
+    let mut distinct_utxos = TransactionUnspentOutputs::new();
+    for utxo in &utxos.0 {
+        if seen.insert(utxo.input.clone()) {
+            distinct_utxos.add(utxo);
+        }
+    }
+    let utxos = &distinct_utxos;
     let mut tx_batch_builder = TxBatchBuilder::new(utxos, address, config)?;
     let batch = tx_batch_builder.build(utxos)?;
     Ok(TransactionBatchList(vec![batch]))
